@@ -112,6 +112,11 @@ func init() {
 				}
 			}
 		}
+		for _, mode := range []string{"sl", "ss", "ls"} {
+			for _, v := range []string{"reads", "registers"} {
+				c.DFS("c12/tools-filter/"+mode+"/"+v, explore.Bounds{Preempt: c.Pick(2, 3), Dev: 0, POR: true, MaxExec: c.Pick(1500, 50000)})
+			}
+		}
 		for _, mode := range []string{"sl", "sj", "ls", "io"} {
 			for _, v := range []string{"reentrant", "blocked"} {
 				c.DFS("c12/nhandlers-self/"+mode+"/"+v, explore.Bounds{Preempt: c.Pick(1, 2), Dev: 0, POR: true, MaxExec: c.Pick(1500, 50000)})
@@ -607,4 +612,85 @@ func resultsOnly(evs []*c12Event) []string {
 		out = append(out, e.Op+"="+e.Result)
 	}
 	return out
+}
+
+// c12Filter: a list filter is application code that runs while a list request is being served; it
+// may look into the registry it filters (GetTool / GetTools) or extend it (RegisterTool), while
+// another goroutine registers a tool. Everything returns, and the registry ends up complete.
+func c12Filter(prefix []int, mode, variant string) explore.Outcome {
+	var viol []explore.Violation
+	obs := &hx.Log{}
+	k := func(s string) string { return s + ":tools-filter:" + mode + ":" + variant }
+	res := vsched.Run(cfgFor(prefix), func() {
+		vsched.SetBranching(false)
+		var r *Rig
+		filter := func(ctx context.Context, tools []*mcp.Tool) []*mcp.Tool {
+			switch variant {
+			case "reads":
+				switch {
+				case r.Server != nil:
+					r.Server.GetTool("a")
+					r.Server.GetTools()
+				case r.SSE != nil:
+					r.SSE.GetTool("a")
+					r.SSE.GetTools()
+				}
+			case "registers":
+				r.RegisterTool(mcp.NewTool("lazy"), func(ctx context.Context, req *mcp.CallToolRequest) (*mcp.CallToolResult, error) {
+					return mcp.NewTextResult("lazy"), nil
+				})
+			}
+			return tools
+		}
+		if mode == "ls" {
+			r = NewRig(mode, mcp.WithSSEToolListFilter(filter))
+		} else {
+			r = NewRig(mode, mcp.WithToolListFilter(filter))
+		}
+		w := &c12World{r: r, reg: "tools", clock: &hx.Counter{}}
+		w.register("a", "h1")
+		r.Start()
+		w.rp = NewRawPeer(r)
+		if err := w.rp.Handshake(); err != nil {
+			viol = append(viol, V("setup-handshake-fails", "setting the scenario up with well-behaved peers fails: %v", err))
+			return
+		}
+		vsched.Quiesce()
+		vsched.SetBranching(true)
+		var l1, l2 string
+		d1, d2, d3 := &hx.Flag{}, &hx.Flag{}, &hx.Flag{}
+		vsched.Go("list-1", func() { l1 = w.do("list", 301); d1.Set() })
+		vsched.Go("register-b", func() { w.register("b", "hb"); d2.Set() })
+		vsched.Go("list-2", func() { l2 = w.do("list", 302); d3.Set() })
+		vsched.Quiesce()
+		if !d1.Get() || !d2.Get() || !d3.Get() {
+			viol = append(viol, V(k("hangs"), "tools/list (whose filter %s the registry) || RegisterTool: list-1 returned=%v, RegisterTool returned=%v, list-2 returned=%v; blocked: %v", variant, d1.Get(), d2.Get(), d3.Get(), vsched.LiveThreads()))
+			return
+		}
+		for _, l := range []string{l1, l2} {
+			if strings.HasPrefix(l, "!") || !strings.Contains(l, "a=") {
+				viol = append(viol, V(k("list-broken"), "tools/list returned %s", l))
+			}
+		}
+		final := w.do("list", 399)
+		want := "[a=h1,b=hb]"
+		if variant == "registers" {
+			want = "[a=h1,b=hb,lazy=]"
+		}
+		if final != want {
+			viol = append(viol, V(k("final-registry"), "after everything returned tools/list shows %s, want %s", final, want))
+		}
+		obs.Add("l1=%s l2=%s", l1, l2)
+	})
+	return finishOutcome(res, obs, viol, true)
+}
+
+func init() {
+	for _, mode := range []string{"sl", "ss", "ls"} {
+		for _, v := range []string{"reads", "registers"} {
+			mode, v := mode, v
+			RegisterScenario(&Scenario{Name: "c12/tools-filter/" + mode + "/" + v, Doc: "two tools/list requests whose list filter " + v + " the tool registry || RegisterTool from another goroutine",
+				Run: func(p []int, m []vsched.ChoicePoint) explore.Outcome { return c12Filter(p, mode, v) }})
+		}
+	}
 }
